@@ -16,4 +16,6 @@ func init() {
 	add("C04", apiQuirkCases)
 	add("C03", apiQuirkCases)
 	add("C14", apiQuirkCases)
+	add("C15", backpressureCases)
+	add("C04", backpressureCases)
 }
